@@ -11,7 +11,9 @@ import (
 	"owverif.local/verif/checks/c13"
 	"owverif.local/verif/checks/c15"
 	"owverif.local/verif/checks/c16"
+	"owverif.local/verif/checks/c18"
 	"owverif.local/verif/checks/c19"
+	"owverif.local/verif/checks/c20"
 	"owverif.local/verif/vf"
 )
 
@@ -23,7 +25,9 @@ var registry = map[string]func() *vf.Check{
 	"C13": c13.Spec,
 	"C15": c15.Spec,
 	"C16": c16.Spec,
+	"C18": c18.Spec,
 	"C19": c19.Spec,
+	"C20": c20.Spec,
 }
 
 func main() {
